@@ -1865,16 +1865,28 @@ class World(object):
                 elif f is None and w is not None:
                     f = w - ni - (1 if rs else 0)
             req = (rs, o.n_word if w is None else w, o.n_frac if f is None else f)
-        st.store = Store('dest', src=d, route='resize_dtype' if op.get('dtype') else 'resize',
-                         modes_from=('slot', d), fmt_req=req)
+        keep_raw = op.get('restore_val') is False
+        if keep_raw:
+            # resize(..., restore_val=False): the raw CODES are kept (re-clamped into the new word), not the
+            # value - a raw write of the old codes into the new format, not a conversion route of C10
+            sh, kind, flat = codes_of(o)
+            vals = None
+            if kind in 'iu' and all(type(c) is int for c in flat) and req[2] is not None:
+                vals = (sh, [Q.unscale(c, req[2]) for c in flat])
+            st.store = Store('dest', vals=vals, raw=True, route='resize_keepraw', modes_from=('slot', d), fmt_req=req)
+            self.bump('resize_without_restoring_the_value')
+        else:
+            st.store = Store('dest', src=d, route='resize_dtype' if op.get('dtype') else 'resize',
+                             modes_from=('slot', d), fmt_req=req)
 
         def call(t):
+            kw = {'restore_val': False} if keep_raw else {}
             if op.get('dtype') is not None:
-                return t.resize(dtype=op['dtype'])
+                return t.resize(dtype=op['dtype'], **kw)
             a, b, c = self.fmt_args(op['fmt'])
             if op.get('n_int') is not None:
-                return t.resize(a, b, c, op['n_int'])
-            return t.resize(a, b, c)
+                return t.resize(a, b, c, op['n_int'], **kw)
+            return t.resize(a, b, c, **kw)
         st.redo = lambda t, so: call(t)
         yield
         call(self.obj(d))
